@@ -97,6 +97,7 @@ class LemmaFramingUnique:
     stream into newline-terminated packets is unique, hence independent of how the stream was chunked."""
 
     lemma = True
+    z3_first_ms = 5000  # z3 runs into its budget on both clauses, cvc5 answers in 0.2 s: let cvc5 try early
     params = ["p", "q", "r", "t"]
     body = _unique
 
